@@ -136,7 +136,7 @@ func refSearch(db *database.Database, terms []string, boosts map[string]float64,
 func init() {
 	// C03: the real index + SearchUniversal (NLP off) against an independent exhaustive scan.
 	suites["C03-index-scan"] = func() result {
-		r := result{Name: "C03-index-scan", Bound: "real BuildUniversalIndex/SearchUniversal (UseNLP off, AllPlatforms, limit > database size) against an independent scan-and-score of the command texts: every database of 1..2 commands over 36 hand-made commands (1,332) and 4,000 seeded random databases of 1..9 commands over a 40-word vocabulary (ASCII, upper case, accents, CJK, stop words, one-byte words, punctuation, duplicates, empty fields, with and without the cached lower-case fields), each with 14 queries (1..12 content words, repeated words, boosted words); histories: direct growth of Commands (lazy rebuild), CachedDatabase.UpdateDatabase, search-before-and-after; score tolerance 1e-9 relative; also tokenizer determinism"}
+		r := result{Name: "C03-index-scan", Bound: "real BuildUniversalIndex/SearchUniversal (UseNLP off, AllPlatforms, limit > database size) against an independent scan-and-score of the command texts: every database of 1..2 commands over 36 hand-made commands (1,332) and 4,000 seeded random databases of 1..9 commands over a 40-word vocabulary (ASCII, upper case, accents, CJK, stop words, one-byte words, punctuation, duplicates, empty fields, with, without and with only some of the cached lower-case fields), each with 14 queries (1..12 content words, repeated words, boosted words); histories: direct growth of Commands (lazy rebuild), CachedDatabase.UpdateDatabase, search-before-and-after; score tolerance 1e-9 relative; also tokenizer determinism"}
 		stop := nlp.StopWords()
 		var bad []string
 		fail := func(f string, a ...interface{}) {
@@ -247,7 +247,22 @@ func init() {
 		randCmds := func(n int, lower bool) []database.Command {
 			var cs []database.Command
 			for i := 0; i < n; i++ {
-				cs = append(cs, mk(phrase(4), phrase(6), list(), list(), lower))
+				c := mk(phrase(4), phrase(6), list(), list(), lower)
+				if lower && rng.Intn(3) == 0 {
+					// partially cached: some of the lower-case copies are missing (commands built
+					// by hand or by older code); the indexer falls back to the raw field for each
+					switch rng.Intn(4) {
+					case 0:
+						c.TagsLower = nil
+					case 1:
+						c.KeywordsLower = nil
+					case 2:
+						c.DescriptionLower = ""
+					case 3:
+						c.CommandLower = ""
+					}
+				}
+				cs = append(cs, c)
 			}
 			return cs
 		}
